@@ -318,7 +318,15 @@ class SqlImpl(TableImpl):
                 else_=(cls.compile_col_expr(expr.default_val, sqa_expr) if expr.default_val is not None else None),
             )
 
-            if not cls.pdt_type(res.type).is_subtype(expr.dtype()):
+            # SQLAlchemy takes the type of a CASE from its first branch. If the case
+            # expression is a float with an integer branch, that branch would stay an
+            # integer (e.g. on SQLite).
+            values = [val for _, val in expr.cases] + ([expr.default_val] if expr.default_val is not None else [])
+            int_in_float = types.without_const(expr.dtype()).is_float() and any(
+                types.without_const(val.dtype()).is_int() for val in values
+            )
+
+            if int_in_float or not cls.pdt_type(res.type).is_subtype(expr.dtype()):
                 res = res.cast(
                     cls.sqa_type(
                         Int64()
